@@ -19,7 +19,7 @@ def parseReq (j : Json) : Option Req := do
 
 /-- configuration for one op line: today's source facts + the back-end the harness ran on + optional TTL override -/
 def cfgFor (j : Json) : Cfg :=
-  let redis := jStr j "backend" == "redis"
+  let redis := jStr j "backend" == "redis" || jStr j "backend" == "engine-redis"
   let base := if jStr j "backend" == "redis-multinode" then todayRedisMultiNode else today (jBool j "strict") (!redis)
   if jHas j "ttl" then
     let t := jObj j "ttl"
